@@ -459,9 +459,19 @@ def exec_for_invariant(engine, ctx, st: ast.For, env: Env, it, inv):
         raise EngineLimit("invariant loop over %r" % (it,))
     label = "%s/loop%d" % (short(ctx.func), loop_ordinal(env, st))
     modified = [n for n in assigned_names(st.body) if n in env.vars]
+    has_yield = any(isinstance(n, (ast.Yield, ast.YieldFrom)) for b in st.body for n in ast.walk(b))
+    if has_yield and ctx.inline_depth == 0:
+        # yields inside the loop: the sequence of yielded values becomes symbolic (count + per-component arrays)
+        if getattr(ctx, "ysym", None) is None:
+            ctx.ysym = V.YieldSeq(ctx)
+            for v in ctx.yielded:
+                ctx.ysym.push(v)
+    elif has_yield:
+        raise EngineLimit("yield inside a loop of an inlined generator")
 
     def inv_clauses(i):
-        ns = NS(i=i, seq=it, lo=lo, hi=hi, ctx=ctx, **{k: v for k, v in env.vars.items()})
+        ns = NS(i=i, seq=it, lo=lo, hi=hi, ctx=ctx, yielded=getattr(ctx, "ysym", None),
+                **{k: v for k, v in env.vars.items()})
         return engine.run_spec(ctx, lambda: _as_items(inv(ns)))
 
     # initiation
@@ -479,6 +489,8 @@ def exec_for_invariant(engine, ctx, st: ast.For, env: Env, it, inv):
                 env.vars[n].fresh = getattr(old_v, "fresh", False)  # still the collection this function allocated
         else:
             env.vars[n] = fresh_like(engine, ctx, n, env.vars[n])
+    if has_yield:
+        ctx.ysym.havoc()
     i = ctx.fresh("iter", z3.IntSort())
     ctx.assume(i >= lo)
     which = ctx.choose(2)
